@@ -1,0 +1,85 @@
+//go:build verif
+
+// Contracts for govc (contract-based deductive verification, see /verif/DESIGN.md).
+// Comment-only file: it contains no code and is compiled only under the verif tag.
+
+package logdb
+
+// ---------------------------------------------------------------- LogReader
+// LogReader implements raft.ILogDB. Its abstract view (the ghost fields of raft.ILogDB) is
+//   gfirst = markerIndex+1, glast = markerIndex+length-1,
+//   gterm(i) = markerTerm if i == markerIndex, else the store's term at i.
+
+//@ pred (lr *LogReader) valid() := lr.length >= 1 && lr.markerIndex + lr.length <= MaxUint64
+//@ pred (lr *LogReader) first() := lr.markerIndex + 1
+//@ pred (lr *LogReader) last() := lr.markerIndex + lr.length - 1
+//@ pred (lr *LogReader) termOf(i int) := ite(i == lr.markerIndex, lr.markerTerm, lr.logdb.gterm[i])
+
+//@ func (lr *LogReader) firstIndex [C19 C09]
+//@ requires lr.valid()
+//@ ensures result == lr.first()
+
+//@ func (lr *LogReader) lastIndex [C19 C09]
+//@ requires lr.valid()
+//@ ensures result == lr.last()
+
+//@ func (lr *LogReader) GetRange [C19 C09]
+//@ requires lr.valid()
+//@ modifies held(lr.Mutex)
+//@ ensures result0 == lr.first() && result1 == lr.last()
+
+//@ func (lr *LogReader) SetRange [C19 C09]
+//@ requires lr.valid() && firstIndex + length <= MaxUint64
+//@ modifies held(lr.Mutex), lr.length
+//@ ensures lr.valid() && lr.markerIndex == old(lr.markerIndex)
+//@ ensures (length == 0 || firstIndex + length - 1 < old(lr.first())) ==> lr.length == old(lr.length)
+//@ ensures !(length == 0 || firstIndex + length - 1 < old(lr.first())) ==> lr.last() == firstIndex + length - 1 && firstIndex <= old(lr.last()) + 1
+
+//@ func (lr *LogReader) Append [C19 C09 C04]
+//@ requires lr.valid()
+//@ requires len(entries) > 0 ==> entries[0].Index + len(entries) <= MaxUint64
+//@ modifies held(lr.Mutex), lr.length
+//@ ensures result == nil && lr.valid() && lr.markerIndex == old(lr.markerIndex)
+//@ ensures len(entries) > 0 && entries[len(entries) - 1].Index >= old(lr.first()) ==> lr.last() == entries[len(entries) - 1].Index && entries[0].Index <= old(lr.last()) + 1
+//@ ensures (len(entries) == 0 || entries[len(entries) - 1].Index < old(lr.first())) ==> lr.length == old(lr.length)
+
+//@ func (lr *LogReader) entriesLocked [C19 C09]
+//@ requires lr.valid() && lr.logdb != nil
+//@ ensures result2 == nil ==> low > lr.markerIndex && low <= high && high <= lr.last() + 1 && len(result0) <= high - low
+//@ ensures result2 == nil && low < high ==> len(result0) >= 1
+//@ ensures result2 == nil ==> (forall i int :: 0 <= i && i < len(result0) ==> result0[i].Index == low + i && result0[i].Term == lr.logdb.gterm[low + i])
+//@ ensures result2 == nil ==> fresh(result0) || cap(result0) == 0
+//@ ensures result2 != nil ==> len(result0) == 0
+//@ ensures low <= lr.markerIndex && low <= high ==> result2 == raft.ErrCompacted
+//@ ensures errIs(result2, raft.ErrCompacted) ==> low <= lr.markerIndex
+
+//@ func (lr *LogReader) Entries [C19 C09]
+//@ requires lr.valid() && lr.logdb != nil
+//@ modifies held(lr.Mutex)
+//@ ensures result1 == nil ==> low >= lr.first() && high <= lr.last() + 1 && low <= high && len(result0) <= high - low
+//@ ensures result1 == nil && low < high ==> len(result0) >= 1
+//@ ensures result1 == nil ==> (forall i int :: 0 <= i && i < len(result0) ==> result0[i].Index == low + i && result0[i].Term == lr.termOf(low + i))
+//@ ensures result1 != nil ==> len(result0) == 0
+//@ ensures result1 == nil ==> fresh(result0) || cap(result0) == 0
+
+//@ func (lr *LogReader) termLocked [C19 C09]
+//@ requires lr.valid() && lr.logdb != nil
+//@ ensures result1 == nil ==> index >= lr.markerIndex && index <= lr.last() && result0 == lr.termOf(index)
+//@ ensures result1 != nil ==> result0 == 0
+//@ ensures errIs(result1, raft.ErrCompacted) ==> index < lr.markerIndex
+
+//@ func (lr *LogReader) Term [C19 C09]
+//@ requires lr.valid() && lr.logdb != nil
+//@ modifies held(lr.Mutex)
+//@ ensures result1 == nil ==> index >= lr.first() - 1 && index <= lr.last() && result0 == lr.termOf(index)
+//@ ensures result1 != nil ==> result0 == 0
+//@ ensures errIs(result1, raft.ErrCompacted) ==> index < lr.first() - 1
+
+//@ func (lr *LogReader) Compact [C19 C09 C08]
+//@ requires lr.valid() && lr.logdb != nil
+//@ modifies held(lr.Mutex), lr.length, lr.markerIndex, lr.markerTerm
+//@ ensures lr.valid()
+//@ ensures result == nil ==> index >= old(lr.markerIndex) && index <= old(lr.last()) && lr.markerIndex == index && lr.last() == old(lr.last()) && lr.markerTerm == old(lr.termOf(index))
+//@ ensures result != nil ==> lr.markerIndex == old(lr.markerIndex) && lr.length == old(lr.length) && lr.markerTerm == old(lr.markerTerm)
+//@ ensures index < old(lr.markerIndex) ==> result == raft.ErrCompacted
+//@ ensures index > old(lr.last()) ==> result == raft.ErrUnavailable
